@@ -81,6 +81,22 @@ class Region:
         return "\n".join(out)
 
 
+def expand_includes(text, root):
+    """textual `//!include <path>`: the included file may itself contain regions; its lines are tagged as prelude"""
+    import os
+    out = []
+    for ln in text.split("\n"):
+        m = re.match(r"^\s*//!include\s+(\S+)\s*$", ln)
+        if m:
+            with open(os.path.join(root, m.group(1)), encoding="utf-8") as fh:
+                out.append("//!prelude-begin " + m.group(1))
+                out.append(expand_includes(fh.read().rstrip("\n"), root))
+                out.append("//!prelude-end")
+        else:
+            out.append(ln)
+    return "\n".join(out)
+
+
 def parse_unit(text, fname):
     """-> list of ('text', str, first_line) | ('region', Region) | ('include', path)"""
     segs = []
